@@ -135,11 +135,13 @@ def exact_grids(ck):
     """(TR, n, f0, min_onset, oversampling) on which every float operation of _sample_condition is exact."""
     out = []
     ns = [3, 5, 9] if not ck.thorough() else [2, 3, 5, 9, 17, 33]
+    f0s = (0.0, 1.0) if not ck.thorough() else (0.0, 1.0, 4.0)
+    mos = (-24.0, -8.0, 0.0, -7.0, -1.5) if not ck.thorough() else (-24.0, -8.0, 0.0, -3.0, -7.0, -1.5, -3.5)
     for TR in (1.0, 2.0, 0.5):
         for n in ns:
-            for mo in (-24.0, -8.0, 0.0, -3.0, -7.0, -1.5, -3.5):
+            for mo in mos:
                 for osamp in (1, 2, 4, 16):
-                    for f0 in (0.0, TR, 4 * TR):
+                    for f0 in [TR * f for f in f0s]:
                         g = grid_facts(TR, n, f0, mo, osamp)
                         if g["exact_floats"] and 2 <= g["N"] <= 700:
                             out.append((TR, n, f0, mo, osamp, g))
@@ -150,13 +152,13 @@ def exact_grids(ck):
 def sec_hr(ck, hm):
     rng = ck.rng("hr")
     grids = exact_grids(ck)
-    per = ck.n(2, 6)
+    per = ck.n(1, 6)
     terms, meta = [], []
     nco = ninc = 0
     for (TR, n, f0, mo, osamp, g) in grids:
         ft = f0 + TR * np.arange(n)
         for rep in range(per):
-            kind = KINDS[(rep + n + osamp) % len(KINDS)] if rep else "coincident"
+            kind = KINDS[(rep + len(terms)) % len(KINDS)]
             on, du, va = gen_events(rng, ft, TR, mo, kind, TR / 64)
             inp = {"frametimes": ft.tolist(), "oversampling": osamp, "min_onset": mo, "onsets": on.tolist(),
                    "durations": du.tolist(), "amplitudes": va.tolist()}
@@ -463,6 +465,17 @@ def sec_dmtx(ck, hm, dm, ep):
             ck.fail("dmtx/duplicate-name", "make_dmtx returns duplicate column names %s" % names, rep)
         # blocks in order: conditions (sorted ids) x basis | user regressors | drifts | constant
         p = nb * len(ids)
+        sv = np.linalg.svd(X, compute_uv=False)
+        if X.shape[1] > n or sv.min() * 1e13 < sv.max():
+            # rank deficient at working precision: make_dmtx's _full_rank replaces the whole matrix by a regularised one (documented);
+            # only the shape / name checks apply
+            ck.count(("dmtx-reg", TR, n, tuple(ids), model), bucket="dmtx:regularised-by-full_rank")
+            terms.append("list_eqb String.eqb (dmtx_names show_nat %s %s %s %s %s) %s" % (
+                clist([cstr(s) for s in sorted(ids)]), COQ_MODEL[model], clist([cnat(x) for x in delays]),
+                clist([cstr(s) for s in (addn if addn is not None else ["reg%d" % k for k in range(nadd)])]),
+                cnat(drift.shape[1]), clist([cstr(s) for s in names])))
+            meta.append(rep)
+            continue
         if nadd and not np.array_equal(X[:, p:p + nadd], add):
             ck.fail("dmtx/user-regressor-block", "user regressors are not columns %d..%d of the design matrix" % (p, p + nadd), rep)
         if not np.allclose(X[:, p + nadd:], drift, rtol=0, atol=1e-12):
@@ -525,7 +538,7 @@ def sec_dmtx(ck, hm, dm, ep):
                 ck.count(("cos", n, TR, period), nontrivial=C.shape[1] > 1, bucket="drift:cosine")
                 rep = {"n": n, "TR": TR, "period_cut": period, "shape": list(C.shape)}
                 order = C.shape[1]
-                if C.shape[0] != n or abs(order - 2 * n * TR / period) > 1 or order < 1:
+                if C.shape[0] != n or abs(order - 2 * n * TR / period) > 1 + 1e-9 or order < 1:
                     ck.fail("drift/cosine-shape", "cosine drift has shape %s, expected (%d, floor(%g))" % (C.shape, n, 2 * n * TR / period), rep)
                     continue
                 K = C[:, :-1]
@@ -608,6 +621,8 @@ def sec_dmtx(ck, hm, dm, ep):
         names = ["n%d_%s" % (j, "x" * int(rng.integers(0, 4))) for j in range(p)]
         if i % 4 == 1:
             names[0] = "cond a"        # a space inside a name
+        if i == 0:                     # smallest replay of the single-column finding first
+            X, names, n, p = np.ones((26, 1)), ["n0_"], 26, 1
         path = os.path.join(tmp, "d%d.csv" % i)
         d = dm.DesignMatrix(X, names, None)
         d.write_csv(path)
@@ -617,7 +632,8 @@ def sec_dmtx(ck, hm, dm, ep):
         try:
             d2 = dm.dmtx_from_csv(path)
         except Exception as e:  # noqa
-            ck.fail("csv/read-raises", "dmtx_from_csv raised %s: %s" % (type(e).__name__, e), rep)
+            ck.fail("csv/single-column-sniffer" if p == 1 else "csv/read-raises",
+                    "DesignMatrix(%d x %d, names %s).write_csv then dmtx_from_csv raised %s: %s" % (n, p, names, type(e).__name__, e), rep)
             continue
         if list(d2.names) != names:
             ck.fail("csv/names", "names read back %s != written %s" % (d2.names, names), rep)
